@@ -4,6 +4,10 @@ Streams (model `Wpull.Url` vs the real code in ctx.repo):
   parse    URLInfo.parse + every documented attribute / accessor, or the exception class
   orlog    parse_url_or_log
   join     wpull.scraper.util.urljoin_safe (stdlib urllib.parse.urljoin = logged parameter)
+  htmljoin the HTML scraper glue: the real HTMLScraper.scrape over generated documents (<base href>, <a>, <img>, <object codebase data
+           classid archive>, <applet codebase code archive>; hostile base/codebase values x link values of every class):
+           never raises, every produced link = urljoin_safe(document base / joined codebase / page URL, link, allow_fragments=False);
+           the model's base selection (docBase, elementBase) and join agree item by item
   scrape   the consumer of the logging variant: the real ProcessingRule.scrape_document / _process_scrape_info (real FetchRule,
            real URLRewriter with every option combination incl. none, stub ItemSession table and scraper result) on link lists
            mixing parseable links with every class of unparseable one: never raises, unparseable skipped, parseable queued
@@ -22,7 +26,7 @@ RULE = ('parse/orlog: malformed stream (bracket and colon soup over {h t p : / .
         '63/64/300-character labels, IPv6 bracket forms, lone surrogates in every component, Unicode spaces and digits), '
         'the string constants of wpull/url_test.py and 1-3 character-level mutations of them, grammar-directed URLs; '
         '12% default_scheme in {None, "", ftp, https, mailto, x.y}, 18% encoding != utf-8; join: (base, link) pairs from the same '
-        'pools plus scheme-relative links; scrape: link lists (junk classes x good links x mutated/grammar links with #! fragments and session ids) x 5 URLRewriter settings; thorough adds all strings of length <= 4 (+ "http://" + length <= 5) over the soup '
+        'pools plus scheme-relative links, each with allow_fragments True and False; htmljoin: documents with 0-2 <base>, 1-4 elements, 45% hostile codebase; scrape: link lists (junk classes x good links x mutated/grammar links with #! fragments and session ids) x 5 URLRewriter settings; thorough adds all strings of length <= 4 (+ "http://" + length <= 5) over the soup '
         'alphabet. non-trivial = input non-empty; distinct by (stream, url, default_scheme, encoding)')
 TRUSTED = list(uc.TRUSTED_COMMON) + [
     'urllib.parse.urljoin raises only ValueError (hypothesis of urljoin_safe_only_valueerror; monitored on every sampled call)']
@@ -41,64 +45,256 @@ def batch(ctx, wu, cases, op='parse'):
         ctx.sample(dict(c.as_json(), stream=op))
 
 
-def join_batch(ctx, wu, pairs):
-    import wpull.scraper.util as su
-    reqs, reals = [], []
-    for base, link in pairs:
-        wu.urljoin.cache_clear()
-        log = []
-        orig = urllib.parse.urljoin
+SEP = 0x110001
 
-        def logging_join(b, u, allow_fragments=True, _log=log, _orig=orig):
+
+def join_key(base, url, af):
+    return [ord(c) for c in base] + [SEP] + [ord(c) for c in url] + [SEP, 1 if af else 0]
+
+
+class JoinLog:
+    """wraps the stdlib urllib.parse.urljoin (the `stdJoin` parameter of the model) while a case runs"""
+    def __init__(self, ctx):
+        self.ctx, self.log = ctx, []
+
+    def __enter__(self):
+        self.orig = urllib.parse.urljoin
+        log, orig, ctx = self.log, self.orig, self.ctx
+
+        def logging_join(b, u, allow_fragments=True):
             try:
-                r = _orig(b, u, allow_fragments=allow_fragments)
+                r = orig(b, u, allow_fragments=allow_fragments)
             except Exception as e:
-                _log.append((u, e))
+                if isinstance(b, str) and isinstance(u, str):
+                    log.append((join_key(b, u, allow_fragments), e))
+                if not isinstance(e, ValueError):
+                    ctx.tag('stdlib-urljoin-raised:' + type(e).__name__)
                 raise
-            _log.append((u, r))
+            if isinstance(b, str) and isinstance(u, str):
+                log.append((join_key(b, u, allow_fragments), r))
             return r
         urllib.parse.urljoin = logging_join
-        exc = None
-        try:
-            with uc.guard():
+        return self
+
+    def __exit__(self, *a):
+        urllib.parse.urljoin = self.orig
+        return False
+
+    def table(self):
+        seen, out = set(), []
+        for k, v in self.log:
+            if tuple(k) not in seen:
+                seen.add(tuple(k))
+                out.append((k, uc.eexc_value(v)))
+        return uc.etable(out)
+
+
+def join_batch(ctx, wu, pairs):
+    import wpull.scraper.util as su
+    reqs, reals, meta = [], [], []
+    for base, link in pairs:
+        for af in (True, False):
+            wu.urljoin.cache_clear()
+            case = {'stream': 'join', 'base': base, 'url': link, 'allow_fragments': af}
+            exc = None
+            with JoinLog(ctx) as jl:
                 try:
-                    r = su.urljoin_safe(base, link)
-                    real = 'none' if r is None else 'some ' + enc(r)
+                    with uc.guard():
+                        try:
+                            r = su.urljoin_safe(base, link, allow_fragments=af)
+                            real = 'none' if r is None else 'some ' + enc(r)
+                        except uc.Timeout:
+                            raise
+                        except BaseException as e:
+                            exc = e
+                            real = 'exc ' + uc.exc_name(e)
                 except uc.Timeout:
-                    raise
-                except BaseException as e:
-                    exc = e
-                    real = 'exc ' + uc.exc_name(e)
-        except uc.Timeout:
-            real = 'timeout'
-            ctx.fail('nontermination', 'urljoin_safe', {'stream': 'join', 'base': base, 'url': link}, 'timeout')
-        finally:
-            urllib.parse.urljoin = orig
-        if exc is not None:
-            ctx.fail('raises', 'urljoin_safe', {'stream': 'join', 'base': base, 'url': link},
-                     'urljoin_safe raised %s: %s' % (type(exc).__name__, str(exc)[:200]))
-        # the unguarded join: only ValueError
-        wu.urljoin.cache_clear()
-        try:
-            wu.urljoin(base, link)
-        except ValueError:
-            pass
-        except Exception as e:
-            ctx.fail('non-valueerror', 'urljoin', {'stream': 'join', 'base': base, 'url': link},
-                     'urljoin raised %s: %s' % (type(e).__name__, str(e)[:200]))
-        for u, v in log:
-            if isinstance(v, BaseException) and not isinstance(v, ValueError):
-                ctx.tag('stdlib-urljoin-raised:' + type(v).__name__)
-        table = uc.dedupe((k, uc.eexc_value(v)) for k, v in log)
-        reqs.append('url join %s %s %s' % (enc(base), enc(link), uc.etable(table)))
-        reals.append(real)
-        ctx.case(('join', base, link), nontrivial=bool(link), tags=['join:' + real.split(' ')[0]])
+                    real = 'timeout'
+                    ctx.fail('nontermination', 'urljoin_safe', case, 'timeout')
+            if exc is not None:
+                ctx.fail('raises', 'urljoin_safe', case,
+                         'urljoin_safe raised %s: %s' % (type(exc).__name__, str(exc)[:200]))
+            # the unguarded join: only ValueError
+            wu.urljoin.cache_clear()
+            try:
+                wu.urljoin(base, link, allow_fragments=af)
+            except ValueError:
+                pass
+            except Exception as e:
+                ctx.fail('non-valueerror', 'urljoin', case, 'urljoin raised %s: %s' % (type(e).__name__, str(e)[:200]))
+            reqs.append('url join %s %s %s %s' % ('T' if af else 'F', enc(base), enc(link), jl.table()))
+            reals.append(real)
+            meta.append(case)
+            ctx.case(('join', base, link, af), nontrivial=bool(link), tags=['join:' + real.split(' ')[0], 'join:af=%s' % af])
     replies = ctx.model.ask(reqs)
-    for (base, link), rep, real in zip(pairs, replies, reals):
+    for case, rep, real in zip(meta, replies, reals):
         if rep != real:
-            ctx.disagree('join', {'stream': 'join', 'base': base, 'url': link}, rep, real)
+            ctx.disagree('join', case, rep, real)
     if pairs:
         ctx.sample({'stream': 'join', 'base': pairs[0][0], 'url': pairs[0][1]})
+
+
+# ------------------------------------------------------------------ HTMLScraper glue: base selection + join
+HOSTILE_BASES = ['http://[broken/', '//[::1::]/', 'http://\u2100.com/', 'http://a\uff03b/', '//[', 'http://[x]/', 'http://a@[b', '//\u2100/p']
+OK_BASES = ['http://other.example/base/', '/sub/dir/', 'rel/', '//cdn.example/x/', '..', 'http://example.com/a/b.html#frag', '?q', '#f', 'ftp://f.example/']
+LINK_VALUES = ['x.class', 'a/b.jar', '/abs/p', '//host2/path', '//host2', '//', '#top', '#!bang', '#', '?x=1', '', ' ', '.', '..', '../up',
+               'http://abs.example/z', 'https://s.example/#f', 'mailto:m@x', 'javascript:void(0)', 'http://[bad/', '//[bad', 'http://\u2100.com/',
+               'a b', 'p?q#f', ':', 'x:y', '//host2/p#f', '\u00e9.png', 'data:,x', '/a/../b', '///triple']
+
+
+def gen_doc(rng):
+    page = rng.choice(['http://example.com/', 'http://example.com/dir/page.html', 'http://example.com/dir/page.html?q=1',
+                       'https://example.com:8443/a/b/', 'http://[::1]/x/y'])
+    bases = []
+    for _ in range(rng.choice([0, 0, 1, 1, 2])):
+        bases.append(rng.choice(HOSTILE_BASES) if rng.random() < 0.4 else rng.choice(OK_BASES + ['', ' ']))
+    elements = []
+    for _ in range(rng.randrange(1, 5)):
+        r = rng.random()
+        if r < 0.25:
+            elements.append(('a', None, [('href', rng.choice(LINK_VALUES))]))
+        elif r < 0.35:
+            elements.append(('img', None, [('src', rng.choice(LINK_VALUES))]))
+        else:
+            tag = rng.choice(['object', 'applet'])
+            cb = None
+            rr = rng.random()
+            if rr < 0.45:
+                cb = rng.choice(HOSTILE_BASES)
+            elif rr < 0.8:
+                cb = rng.choice(OK_BASES + ['', ' '])
+            attrs = []
+            for attr in (('data', 'classid', 'src') if tag == 'object' else ('code', 'src')):
+                if rng.random() < 0.6:
+                    attrs.append((attr, rng.choice(LINK_VALUES)))
+            if rng.random() < 0.5:
+                attrs.append(('archive', ' '.join(rng.choice([v for v in LINK_VALUES if ' ' not in v and v]) for _ in range(rng.randrange(1, 4)))))
+            elements.append((tag, cb, attrs))
+    return {'stream': 'htmljoin', 'page': page, 'bases': bases, 'elements': [[t, c, [list(a) for a in at]] for t, c, at in elements]}
+
+
+def render_doc(doc):
+    import html
+    out = ['<!DOCTYPE html><html><head><title>t</title>']
+    for b in doc['bases']:
+        out.append('<base href="%s">' % html.escape(b, quote=True))
+    out.append('</head><body>')
+    for tag, cb, attrs in doc['elements']:
+        parts = [tag]
+        if cb is not None:
+            parts.append('codebase="%s"' % html.escape(cb, quote=True))
+        for k, v in attrs:
+            parts.append('%s="%s"' % (k, html.escape(v, quote=True)))
+        out.append('<%s>' % ' '.join(parts))
+        if tag in ('a', 'object', 'applet'):
+            out.append('x</%s>' % tag)
+    out.append('</body></html>')
+    return ''.join(out).encode('utf-8')
+
+
+def html_batch(ctx, wu, docs):
+    """the real HTMLScraper over generated documents: never raises; every produced link is what
+    urljoin_safe(selected base, link, allow_fragments=False) gives; model base selection agrees"""
+    import wpull.scraper.util as su
+    from wpull.body import Body
+    from wpull.document.htmlparse.html5lib_ import HTMLParser
+    from wpull.protocol.http.request import Request, Response
+    from wpull.scraper.html import HTMLScraper, ElementWalker
+    scraper = HTMLScraper(HTMLParser(), ElementWalker())
+    reqs, refs, metas = [], [], []
+    for doc in docs:
+        page = doc['page']
+        request = Request(page)
+        response = Response(200, 'OK')
+        response.fields['Content-Type'] = 'text/html; charset=utf-8'
+        response.body = Body()
+        response.body.write(render_doc(doc))
+        response.body.seek(0)
+        wu.urljoin.cache_clear()
+        exc, result = None, None
+        with JoinLog(ctx) as jl:
+            try:
+                with uc.guard():
+                    try:
+                        result = scraper.scrape(request, response)
+                    except uc.Timeout:
+                        raise
+                    except BaseException as e:
+                        exc = e
+            except uc.Timeout:
+                ctx.fail('nontermination', 'HTMLScraper.scrape', doc, 'timeout')
+                continue
+            # reference: base selection as the property words it, joins by the real urljoin_safe (same log)
+            page_url = request.url_info.url
+            expected, items = set(), []
+            ref_exc = None
+            try:
+                doc_base = None
+                seen_hrefs = []
+                for href in doc['bases']:
+                    if not doc_base:
+                        doc_base = su.urljoin_safe(page_url, su.clean_link_soup(href))
+                    seen_hrefs.append(su.clean_link_soup(href))
+                    # the <base> element's own href is a link too, joined against the base known so far
+                    cleaned = su.clean_link_soup(href)
+                    if cleaned:
+                        eb = doc_base or page_url
+                        url = su.urljoin_safe(eb, cleaned, allow_fragments=False)
+                        if url:
+                            expected.add(url)
+                        items.append((list(seen_hrefs), None, cleaned, eb, url))
+                for tag, cb, attrs in doc['elements']:
+                    links = []
+                    if tag in ('object', 'applet'):
+                        if cb:
+                            links.append((cb, None))
+                        for k, v in attrs:
+                            if k == 'archive':
+                                links += [(m, cb) for m in v.split(' ') if m]
+                            else:
+                                links.append((v, cb))
+                    else:
+                        links += [(v, None) for k, v in attrs]
+                    for link, base_link in links:
+                        eb = doc_base or page_url
+                        cbc = None
+                        if base_link:
+                            cbc = su.clean_link_soup(base_link)
+                            if cbc:
+                                eb = su.urljoin_safe(page_url, cbc) or page_url
+                        cleaned = su.clean_link_soup(link)
+                        if not cleaned:
+                            continue
+                        url = su.urljoin_safe(eb, cleaned, allow_fragments=False)
+                        if url:
+                            expected.add(url)
+                        items.append((list(seen_hrefs), cbc if base_link else None, cleaned, eb, url))
+            except Exception as e:
+                ref_exc = e
+        ctx.case(('htmljoin', repr(doc)), tags=['htmljoin:' + ('exc' if exc else 'ok')])
+        if exc is not None:
+            ctx.fail('raises', 'HTMLScraper.scrape', doc, 'HTMLScraper.scrape raised %s: %s' % (type(exc).__name__, str(exc)[:200]))
+            continue
+        if ref_exc is not None:
+            ctx.fail('raises', 'urljoin_safe', doc, 'the reference join raised %s: %s' % (type(ref_exc).__name__, str(ref_exc)[:200]))
+            continue
+        got = set(c.link for c in result.link_contexts) if result else set()
+        if got != expected:
+            ctx.fail('links-differ', 'HTMLScraper.scrape', doc,
+                     'scraped %r, joining against the selected bases gives %r' % (sorted(got - expected)[:6], sorted(expected - got)[:6]))
+        table = jl.table()
+        for hrefs, cbc, cleaned, eb, url in items:
+            reqs.append('url htmljoin %s %s %s %s %s' % (
+                enc(page_url), '~' if not hrefs else '/'.join(enc(h) for h in hrefs),
+                'None' if cbc is None else '=' + enc(cbc), enc(cleaned), table))
+            refs.append('base =%s %s' % (enc(eb), 'none' if url is None else 'some ' + enc(url)))
+            metas.append(doc)
+    replies = ctx.model.ask(reqs)
+    for doc, rep, ref in zip(metas, replies, refs):
+        if rep != ref:
+            ctx.disagree('htmljoin', doc, rep, ref)
+    if docs:
+        ctx.sample(docs[0])
 
 
 # ------------------------------------------------------------------ consumer of parse_url_or_log: ProcessingRule
@@ -307,6 +503,8 @@ def replay(ctx, case, kind=None, where=None):
         join_batch(ctx, wu, [(case['base'], case['url'])])
     elif s == 'scrape':
         scrape_batch(ctx, wu, [case['links']])
+    elif s == 'htmljoin':
+        html_batch(ctx, wu, [case])
     else:
         raise Infra('unknown replay stream %r' % s)
 
@@ -327,6 +525,8 @@ def run(ctx):
         batch(ctx, wu, ol, op='orlog')
     join_batch(ctx, wu, gen_pairs(ctx, ctx.subrng('join'), ctx.scale(3000, 60000)))
     scrape_batch(ctx, wu, gen_link_lists(ctx, ctx.subrng('scrape'), ctx.scale(400, 6000)))
+    hrng = ctx.subrng('html')
+    html_batch(ctx, wu, [gen_doc(hrng) for _ in range(ctx.scale(600, 10000))])
     if ctx.tier == 'thorough' and ctx.boost == 1:
         exhaustive(ctx, wu)
         ctx.exhaustive = True
@@ -338,3 +538,4 @@ def search(ctx):
     batch(ctx, wu, gen_cases(ctx, rng, ctx.scale(300, 800), ctx.scale(200, 500), ctx.scale(100, 300)))
     join_batch(ctx, wu, gen_pairs(ctx, rng, ctx.scale(100, 300)))
     scrape_batch(ctx, wu, gen_link_lists(ctx, rng, ctx.scale(20, 60)))
+    html_batch(ctx, wu, [gen_doc(rng) for _ in range(ctx.scale(30, 100))])
